@@ -29,6 +29,8 @@ import (
 	"golang.org/x/net/websocket"
 
 	"verif/check"
+	"verif/explore"
+	"verif/vrt"
 )
 
 // ---- C15: only valid token holders reach the relay or the smoke test -----------------
@@ -339,6 +341,13 @@ func exercise(scn string, tg *authTarget, state string, prev string, st *authSta
 			admitted = code != 401 && code != 403
 		}
 		enteredNow := tg.entered != nil && tg.entered.Load() > before
+		if tg.entered != nil && admitted && !enteredNow {
+			// the 101 / 200 is written before the inner handler's goroutine has
+			// counted itself: wait for it (harness synchronisation, not an oracle)
+			for dl := time.Now().Add(20 * time.Second); time.Now().Before(dl) && !enteredNow; time.Sleep(time.Millisecond) {
+				enteredNow = tg.entered.Load() > before
+			}
+		}
 		st.outcomes[fmt.Sprintf("%s/%s/%d", state, path, code)] = true
 		if tg.entered != nil && enteredNow != admitted {
 			st.fail(scn, "admission", "status-vs-handler-entry", fmt.Sprintf("%s state=%s: status %d but handler entered=%v", desc, state, code, enteredNow))
@@ -452,14 +461,16 @@ func init() {
 		res.Extra["token_classes"] = len(tokenAlphabet("s", "p", time.Now()))
 		return res
 	})
+	check.Register("auth-conc", runAuthConc)
 	check.Register("auth-binary", runAuthBinary)
 	check.RegisterProp("C15", func(tier string) []check.Job {
 		return []check.Job{
 			{Kind: "auth-inproc", Name: "IN:auth-wrappers"},
 			{Kind: "auth-binary", Name: "IN:auth-real-binary", BudgetS: 240},
+			{Kind: "auth-conc", Name: "S2:auth-vs-reregistration", BudgetS: 300},
 		}
 	}, check.PropInfo{
-		Rule:        "token alphabet = one valid token and every mutation class (each segment emptied / truncated / one character changed / taken from another token; alg HS256/384/512/none/None/RS256-header/missing; signed with the current, previous, empty, wrong or truncated secret; exp past/now/future/absent; iat and nbf in the future) x three carriers singly and in all 27 absent/valid/invalid combinations x an explicit-state machine over the server's secret (every sequence <= 3 of register-A / register-B / unregister), on (1) the two exported wrappers mounted as cmd/main.go mounts them around a harness-owned inner handler, in-process, and (2) the real binary built from /repo/cmd, registered by a harness-owned discovery service on loopback (unregistered -> secret 1 -> lapsed -> secret 2). Oracle: an independent verifier (crypto/hmac, base64, JSON); inner handler entered => a carried token verifies under the current secret and is within its times; a lone valid token is admitted; a rejection is 401/403.",
+		Rule:        "token alphabet = one valid token and every mutation class (each segment emptied / truncated / one character changed / taken from another token; alg HS256/384/512/none/None/RS256-header/missing; signed with the current, previous, empty, wrong or truncated secret; exp past/now/future/absent; iat and nbf in the future) x three carriers singly and in all 27 absent/valid/invalid combinations x an explicit-state machine over the server's secret (every sequence <= 3 of register-A / register-B / unregister), on (1) the two exported wrappers mounted as cmd/main.go mounts them around a harness-owned inner handler, in-process, and (2) the real binary built from /repo/cmd, registered by a harness-owned discovery service on loopback (unregistered -> secret 1 -> lapsed -> secret 2), and (3) S2: one or two requests handled while the discovery client re-registers (secret A -> none -> B, or none -> A) in another thread, every interleaving at the granularity of the lock around the secret (hagall-common/hdsclient instrumented): admitted => the token verifies under a non-empty secret the server held at some instant of the call. Oracle: an independent verifier (crypto/hmac, base64, JSON); inner handler entered => a carried token verifies under the current secret and is within its times; a lone valid token is admitted; a rejection is 401/403.",
 		Assumptions: []string{"loopback TCP only", "cases the statement leaves open are accepted either way: HS384/HS512 with the right secret, exp/iat/nbf within 2 s of now, iat within the 10 s leeway, a token without exp", "with several carriers present: admitted => some carried token is valid; all invalid => rejected"},
 	})
 }
@@ -666,5 +677,111 @@ func runAuthBinary(j *check.Job) *check.Result {
 	}
 	sort.Slice(res.Violations, func(a, b int) bool { return res.Violations[a].Detail < res.Violations[b].Detail })
 	res.Samples = []any{map[string]any{"state": "binary:lapsed", "request": "valid-for-secret-1 via header on /", "expected": "rejected"}}
+	return res
+}
+
+// ---- target 3: the wrappers against a concurrent re-registration (S2) -----------------
+
+func runAuthConc(j *check.Job) *check.Result {
+	res := &check.Result{Exhaustive: true, Extra: map[string]any{}, Bound: 3}
+	now := time.Now()
+	const secA, secB = "secret-AAAAAAAAAAAAAAAAAAAAAAAA", "secret-BBBBBBBBBBBBBBBBBBBBBBBB"
+	hdr := map[string]any{"alg": "HS256", "typ": "JWT"}
+	pl := map[string]any{"iss": "HDS", "iat": now.Unix() - 60, "exp": now.Unix() + 3600, "jti": "j1", "app_key": "k"}
+	tokens := []tokCase{
+		{"valid-under-A", signJWT("HS256", hdr, pl, secA)},
+		{"valid-under-B", signJWT("HS256", hdr, pl, secB)},
+		{"signed-with-empty-key", signJWT("HS256", hdr, pl, "")},
+		{"signed-with-wrong-secret", signJWT("HS256", hdr, pl, "wrong")},
+	}
+	type scen struct {
+		name    string
+		initial string
+		sets    []string // secrets installed one after the other by the registration thread ("" = withdrawn)
+	}
+	scens := []scen{
+		{"A->none->B", secA, []string{"", secB}},
+		{"none->A", "", []string{secA}},
+		{"A->none", secA, []string{""}},
+	}
+	var deadline time.Time
+	if j.BudgetS > 0 {
+		deadline = time.Now().Add(time.Duration(j.BudgetS) * time.Second)
+	}
+	seen := map[string]bool{}
+	outcomes := map[string]bool{}
+	for _, sc := range scens {
+		for _, t1 := range tokens {
+			for _, entry := range []string{"handshake", "smoke-test"} {
+				sc, t1, entry := sc, t1, entry
+				run := func(ch vrt.Chooser) explore.Outcome {
+					s := vrt.NewSched(ch)
+					vrt.ResetClasses()
+					vrt.S = s
+					client := hds.NewClient(hds.WithHagallEndpoint("http://hagall.test"), hds.WithHDSEndpoint("http://127.0.0.1:1"))
+					client.SetServerData("id", sc.initial)
+					held := []string{sc.initial}
+					var viol []explore.Violation
+					admitted := false
+					s.Spawn("registration", func() {
+						for _, sec := range sc.sets {
+							id := "id"
+							if sec == "" {
+								id = ""
+							}
+							client.SetServerData(id, sec)
+						}
+					})
+					s.Spawn("request", func() {
+						req := httptest.NewRequest("GET", "http://hagall.test/", nil)
+						req.Header.Set("Authorization", "Bearer "+t1.Token)
+						if entry == "handshake" {
+							admitted = hagallhttp.VerifyAuthToken(context.Background(), client)(nil, req) == nil
+						} else {
+							rec := httptest.NewRecorder()
+							hagallhttp.VerifyAuthTokenHandler(client, func(http.ResponseWriter, *http.Request) { admitted = true })(rec, req)
+						}
+					})
+					held = append(held, sc.sets...)
+					s.RunQuiescent()
+					if st := stuck(s); len(st) > 0 {
+						viol = append(viol, explore.Violation{Oracle: "deadlock", Detail: "auth", Info: fmt.Sprint(st)})
+						s.Abort()
+					}
+					s.Join()
+					vrt.S = nil
+					ok := false
+					for _, sec := range held {
+						if v := refVerify(t1.Token, sec, now); v == valid || v == dontcare {
+							ok = true
+						}
+					}
+					if admitted && !ok {
+						viol = append(viol, explore.Violation{Oracle: "admission", Detail: "admitted-during-reregistration:" + t1.Name, Info: fmt.Sprintf("%s on %s while the server's secret goes %s: admitted although the token verifies under no secret the server held", t1.Name, entry, sc.name)})
+					}
+					return explore.Outcome{Points: s.Points, Steps: s.Steps, Violations: viol, Key: fmt.Sprint(admitted)}
+				}
+				st := explore.Explore(run, explore.Config{Bound: 3, Deadline: deadline})
+				res.Executions += st.Executions
+				res.States += st.Executions
+				res.Transitions += st.Points + st.Executions
+				res.Steps += st.Steps
+				if !st.Exhaustive {
+					res.Exhaustive, res.CapHit = false, st.CapHit
+				}
+				for k := range st.Outcomes {
+					outcomes[sc.name+t1.Name+entry+k] = true
+				}
+				for _, f := range st.Found {
+					if !seen[f.Oracle+f.Detail] {
+						seen[f.Oracle+f.Detail] = true
+						res.Violations = append(res.Violations, check.Violation{Scenario: j.Name, Oracle: f.Oracle, Detail: f.Detail, Info: f.Info, Replay: &check.Replay{Choices: trimZeros(f.Prefix)}})
+					}
+				}
+			}
+		}
+	}
+	res.Outcomes = len(outcomes)
+	res.Samples = []any{map[string]any{"secret": "A -> none -> B", "token": "signed-with-empty-key", "entry": "handshake"}}
 	return res
 }
